@@ -16,7 +16,9 @@ import sys
 import time
 
 VERIF = os.path.dirname(os.path.dirname(os.path.abspath(__file__)))
-REPO = '/repo'
+# the tree the change is applied to: /repo itself, or (VERIF_REPO) a scratch worktree of it — then furax is imported
+# from that worktree through PYTHONPATH, which takes precedence over the editable install of /repo/src
+REPO = os.environ.get('VERIF_REPO', '/repo')
 
 
 def sh(cmd, **kw):
@@ -61,7 +63,8 @@ def main() -> int:
                     scratch = os.path.join(VERIF, '.cache', 'seeded-evidence')
                     os.makedirs(scratch, exist_ok=True)
                     r = sh([os.path.join(VERIF, 'check'), p, '--tier', tier],
-                           env=dict(os.environ, VERIF_SEED=seed, VERIF_EVIDENCE_DIR=scratch), cwd=VERIF)
+                           env=dict(os.environ, VERIF_SEED=seed, VERIF_EVIDENCE_DIR=scratch,
+                                    PYTHONPATH=os.path.join(REPO, 'src')), cwd=VERIF)
                     viol = [l for l in r.stdout.split('\n') if l.startswith('VIOLATION')]
                     summary = [l for l in r.stdout.split('\n') if l.startswith(p + ' tier=')]
                     detail = [l.strip() for l in r.stderr.split('\n') if 'failing input' in l or 'correspondence broke' in l
